@@ -153,8 +153,14 @@ impl World {
             if name.starts_with("ESDT") || name.starts_with("MultiESDT") || name == "SCDeploy" || name == "SCUpgrade" {
                 continue;
             }
-            let topics = l.topics[1..].iter().map(|t| if t.is_empty() { ".".into() } else { hx(t) }).collect::<Vec<_>>().join(",");
-            let data = l.data.iter().map(|t| if t.is_empty() { ".".into() } else { hx(t) }).collect::<Vec<_>>().join(",");
+            let mut topics = l.topics[1..].iter().map(|t| if t.is_empty() { ".".into() } else { hx(t) }).collect::<Vec<_>>().join(",");
+            let mut data = l.data.iter().map(|t| if t.is_empty() { ".".into() } else { hx(t) }).collect::<Vec<_>>().join(",");
+            // error events carry the callee's status code and message text, which are not part of
+            // any property: only the first topic (the proposal hash) is kept
+            if name.ends_with("error_event") {
+                topics = l.topics.get(1).map(|t| hx(t)).unwrap_or_default();
+                data = String::new();
+            }
             out.push(format!("{}|{}|{}|{}", hx(l.address.as_bytes()), name, if topics.is_empty() { "-".into() } else { topics }, if data.is_empty() { "-".into() } else { data }));
         }
         if out.is_empty() {
